@@ -62,6 +62,7 @@ var c07Known = []string{
 	"SELECT int(s), float(s), int(f), int(b) FROM t.csv t", "SELECT time_from_unix(i), time_from_unix(f) FROM t.csv t", "SELECT abs(i), -i, i * i, i + i FROM t.csv t",
 	"SELECT s LIKE s, s LIKE '%\\\\', s ~ s, s ~* '(' FROM t.csv t", "SELECT reverse(s), upper(s), len(s), position(s, '') FROM t.csv t",
 	"SELECT o->x, o->zz FROM j.json t", "SELECT t.o->* FROM j.json t", "SELECT id::int, t::time, l::string FROM j.json t",
+	"SELECT * FROM t.csv q ORDER BY i LIMIT k", "SELECT q.k AS k FROM t.csv q LIMIT k", "SELECT q.k AS k FROM t.csv q ORDER BY k DESC LIMIT k + 1", "SELECT * FROM t.csv q LIMIT i",
 	"SELECT i FROM t.csv t ORDER BY i LIMIT -1", "SELECT i FROM t.csv t LIMIT -1", "SELECT i FROM t.csv t LIMIT 0", "SELECT i FROM t.csv t LIMIT n",
 	"SELECT k, array_agg(s), min(s), max(f), avg(i), sum(i), count(DISTINCT n) FROM t.csv t GROUP BY k",
 	"SELECT k, avg(n), sum(n) FROM t.csv t WHERE n IS NULL GROUP BY k", "SELECT avg(i) FROM t.csv t WHERE i > 9223372036854775807 - 1",
